@@ -26,6 +26,9 @@
 #else
 #define WITNESS_END() ((void)0)
 #endif
+#ifndef BLK_FORM
+#define BLK_FORM 0
+#endif
 #ifndef BLK_MAXM
 #define BLK_MAXM 4          // members (known + unknown) per map in the symbolic-order reader obligations
 #endif
@@ -285,13 +288,24 @@ static void r_prepare(bool allow_unknown) {
         for (unsigned j = 0; j < i; j++) __verif_assume(r_order[j] != sl);
         r_order[i] = (uint8_t)sl;
     }
+#if defined(BLK_CANON) && BLK_CANON == 2
+    // directed run: the length forms are concrete per obligation (BLK_FORM bit 0: map indefinite, bit 1: lists indefinite), so that the
+    // position in the item stays a constant during symbolic execution and each loop iteration takes exactly one switch case
+    r_indef = (BLK_FORM & 1) != 0; r_arr_indef = (BLK_FORM & 2) != 0;
+#else
     r_indef = nondet_bool(); r_arr_indef = nondet_bool();
+#endif
     // number of tokens of the whole item: start + per member key + value (+ array elements + break) [+ break]
     unsigned n = 1;
     for (int i = 0; i < TK_NSLOT; i++) if (R.seen & (1u << i)) { n += 2; if (R.val[i].kind == K_ARR) n += (unsigned)R.val[i].u + (r_arr_indef ? 1 : 0); }
     if (r_indef) n += 1;
     g_total_tokens = n;
 }
+#if defined(BLK_CANON) && BLK_CANON == 2
+#define R_CUT_CHOICE false          // directed run: the complete item (truncation: the other reader obligations)
+#else
+#define R_CUT_CHOICE nondet_bool()
+#endif
 enum RExc { RX_NONE = 0, RX_END, RX_DEC, RX_STD, RX_OTHER };
 #define R_CALL(stmt) RExc x = RX_NONE; try { stmt; } catch (CdnsDecoderEnd&) { x = RX_END; } catch (CdnsDecoderException&) { x = RX_DEC; } catch (std::exception&) { x = RX_STD; } catch (...) { x = RX_OTHER; }
 static void r_check_common(RExc x, bool cut) {
@@ -304,7 +318,7 @@ static void r_check_common(RExc x, bool cut) {
     }
 }
 #define R_SIMPLE(name, T) extern "C" void h_r_##name(void) { Box<T> src; sym(src.v); tk_rreset(); { Builder bd(R); schema(bd, src.v); } Store E; { Builder be(E); schema(be, src.v); } \
-    r_prepare(true); bool cut = nondet_bool(); if (cut) { r_cut = (unsigned)vs_range(40); __verif_assume(r_cut < g_total_tokens); } \
+    r_prepare(true); bool cut = R_CUT_CHOICE; if (cut) { r_cut = (unsigned)vs_range(40); __verif_assume(r_cut < g_total_tokens); } \
     Box<T> dst; sym(dst.v); DecBox d; R_CALL(dst.v.read(d.d)) r_check_common(x, cut); \
     if (!cut && x == RX_NONE) { Store G; { Builder bd(G); schema(bd, dst.v); } __verif_assert(store_eq(G, E, false), "read() returns exactly the members that were present, with their values; absent stay absent (C01/C09/C08)"); } \
     WITNESS_END(); }
@@ -315,7 +329,7 @@ R_SIMPLE(aec, AddressEventCount) R_SIMPLE(storagehints, StorageHints)
 extern "C" void h_r_queryresponse(void) {
     Box<QueryResponse> src; sym(src.v); uint64_t off = nondet_u64();
     tk_rreset(); { Builder bd(R); schema(bd, src.v, true, off); } Store E; { Builder be(E); schema(be, src.v, true, off); }
-    r_prepare(true); bool cut = nondet_bool(); if (cut) { r_cut = (unsigned)vs_range(40); __verif_assume(r_cut < g_total_tokens); }
+    r_prepare(true); bool cut = R_CUT_CHOICE; if (cut) { r_cut = (unsigned)vs_range(40); __verif_assume(r_cut < g_total_tokens); }
     Box<QueryResponse> dst; sym(dst.v); DecBox d; R_CALL(dst.v.read(d.d)) r_check_common(x, cut);
     if (!cut && x == RX_NONE) {
         // the raw offset is parked in time_offset->m_secs until the block knows its earliest time and tick rate
@@ -328,7 +342,7 @@ extern "C" void h_r_queryresponse(void) {
 extern "C" void h_r_malformedmessage(void) {
     Box<MalformedMessage> src; sym(src.v); uint64_t off = nondet_u64();
     tk_rreset(); { Builder bd(R); schema(bd, src.v, true, off); } Store E; { Builder be(E); schema(be, src.v, true, off); }
-    r_prepare(true); bool cut = nondet_bool(); if (cut) { r_cut = (unsigned)vs_range(40); __verif_assume(r_cut < g_total_tokens); }
+    r_prepare(true); bool cut = R_CUT_CHOICE; if (cut) { r_cut = (unsigned)vs_range(40); __verif_assume(r_cut < g_total_tokens); }
     Box<MalformedMessage> dst; sym(dst.v); DecBox d; R_CALL(dst.v.read(d.d)) r_check_common(x, cut);
     if (!cut && x == RX_NONE) {
         uint64_t got = dst.v.time_offset.m_init ? dst.v.time_offset.m_val.m_secs : 0;
@@ -344,12 +358,14 @@ static void r_params_common(unsigned which) {
     Store E;
     if (which == 0) { sym(sp.v, 1, 2); { Builder bd(R); schema(bd, sp.v); } Builder be(E); schema(be, sp.v); }
     else if (which == 1) { sym(cp.v, 2, 0, 1); { Builder bd(R); schema(bd, cp.v); } Builder be(E); schema(be, cp.v); }
-    else { sym(bp.v.storage_parameters, 0, 0); bp.v.collection_parameters.m_init = nondet_bool(); sym(bp.v.collection_parameters.m_val, (unsigned)0, (unsigned)0, (unsigned)0); { Builder bd(R); schema(bd, bp.v); } Builder be(E); schema(be, bp.v); }
-    r_prepare(true); bool cut = nondet_bool(); if (cut) { r_cut = (unsigned)vs_range(40); __verif_assume(r_cut < g_total_tokens); }
+    else { sym(bp.v.storage_parameters, 0, 0); bp.v.collection_parameters.m_init = SYM_PRESENT(); sym(bp.v.collection_parameters.m_val, (unsigned)0, (unsigned)0, (unsigned)0); { Builder bd(R); schema(bd, bp.v); } Builder be(E); schema(be, bp.v); }
+    r_prepare(true); bool cut = R_CUT_CHOICE; if (cut) { r_cut = (unsigned)vs_range(40); __verif_assume(r_cut < g_total_tokens); }
+    // the object read into lives on the heap (typed allocation): CBMC 6.11 returned values the native run does not for a local written through the
+    // pointers the vector model hands out (counterexample did not replay), see DESIGN.md 9.4
     DecBox d; Store G; RExc xx;
-    if (which == 0) { Box<StorageParameters> dst; new (&dst.v) StorageParameters(); R_CALL(dst.v.read(d.d)) xx = x; if (!cut && x == RX_NONE) { Builder bd(G); schema(bd, dst.v); } }
-    else if (which == 1) { Box<CollectionParameters> dst; new (&dst.v) CollectionParameters(); R_CALL(dst.v.read(d.d)) xx = x; if (!cut && x == RX_NONE) { Builder bd(G); schema(bd, dst.v); } }
-    else { Box<BlockParameters> dst; new (&dst.v) BlockParameters(); R_CALL(dst.v.read(d.d)) xx = x; if (!cut && x == RX_NONE) { Builder bd(G); schema(bd, dst.v); } }
+    if (which == 0) { Box<StorageParameters>& dst = *new Box<StorageParameters>(); new (&dst.v) StorageParameters(); R_CALL(dst.v.read(d.d)) xx = x; if (!cut && x == RX_NONE) { Builder bd(G); schema(bd, dst.v); } }
+    else if (which == 1) { Box<CollectionParameters>& dst = *new Box<CollectionParameters>(); new (&dst.v) CollectionParameters(); R_CALL(dst.v.read(d.d)) xx = x; if (!cut && x == RX_NONE) { Builder bd(G); schema(bd, dst.v); } }
+    else { Box<BlockParameters>& dst = *new Box<BlockParameters>(); new (&dst.v) BlockParameters(); R_CALL(dst.v.read(d.d)) xx = x; if (!cut && x == RX_NONE) { Builder bd(G); schema(bd, dst.v); } }
     r_check_common(xx, cut);
     if (!cut && xx == RX_NONE) __verif_assert(store_eq(G, E, false), "read() returns exactly the members that were present, with their values and list order; absent stay absent (C09/C08)");
     WITNESS_END();
@@ -379,7 +395,7 @@ extern "C" void h_r_timestamp(void) {
     tk_rreset(); tk_clear(R); R.top = K_ARR; R.started = true; R.declared = 2;
     R.arr[0][0] = Builder::mk(K_UINT, nondet_u64()); R.arr[0][1] = Builder::mk(K_UINT, nondet_u64());
     r_indef = nondet_bool(); r_nmem = 0; g_total_tokens = 3 + (r_indef ? 1 : 0);
-    bool cut = nondet_bool(); if (cut) { r_cut = (unsigned)vs_range(8); __verif_assume(r_cut < g_total_tokens); }
+    bool cut = R_CUT_CHOICE; if (cut) { r_cut = (unsigned)vs_range(8); __verif_assume(r_cut < g_total_tokens); }
     Timestamp t(nondet_u64(), nondet_u64()); DecBox d; R_CALL(t.read(d.d)) r_check_common(x, cut);
     if (!cut && x == RX_NONE) __verif_assert(t.m_secs == R.arr[0][0].u && t.m_ticks == R.arr[0][1].u, "Timestamp read back exactly (C01)");
     WITNESS_END();
